@@ -1,6 +1,16 @@
 package rg
 
 // exceptionTable returns the reviewed exceptions: one (rule, function, construct) each with a reason.
+// Constructs are written with SSA register names normalised to t_ (see normRegs).
 func exceptionTable() []*Exception {
-	return []*Exception{}
+	multi := "stripe positions come from sortedLockPoses, whose every element is a GetKeyPos result (hash % len(l.locks), proved in range by R1 at the single-key helpers) copied through a set; l.locks is assigned only in NewLocks"
+	return []*Exception{
+		{Rule: "R1", Func: "(*memdb.Locks).LockMulti", Construct: "index l.locks[t_[(t_+1)]]", Reason: multi},
+		{Rule: "R1", Func: "(*memdb.Locks).RLockMulti", Construct: "index l.locks[t_[(t_+1)]]", Reason: multi},
+		{Rule: "R1", Func: "(*memdb.Locks).UnLockMulti", Construct: "index l.locks[t_[(t_+1)]]", Reason: multi},
+		{Rule: "R1", Func: "(*memdb.Locks).RUnLockMulti", Construct: "index l.locks[t_[(t_+1)]]", Reason: multi},
+		{Rule: "R1", Func: "(*memdb.Locks).sortedLockPoses", Construct: "index t_[t_]", Reason: "poses has len(set) elements and the loop ranges over the same set, writing one element per map entry (i counts the iterations)"},
+		{Rule: "R1", Func: "resp.readLine", Construct: "index t_[(t_-1)]", Reason: "bulk branch: msg = make([]byte, state.bulkLen+2) with state.bulkLen >= 0 tested by the branch condition on the same goroutine-private state, so len(msg) >= 2; the prover does not identify two loads of a mutable field"},
+		{Rule: "R1", Func: "resp.readLine", Construct: "index t_[(t_-2)]", Reason: "bulk branch: len(msg) = state.bulkLen+2 >= 2 (see the sibling exception)"},
+	}
 }
